@@ -246,15 +246,22 @@ class C06(Check):
         focus = bool(ahead) and rng.random() < 0.1
         if focus:
             key = rng.choice(ahead)
+        # another 6 %: path selections with more than one step (or a predicate) on the families that have them
+        multi = [k for k in self.keys if any('/' in p_ or '[' in p_ for p_ in self.entries[k].family.paths)]
+        pfocus = not focus and bool(multi) and rng.random() < 0.06
+        if pfocus:
+            key = rng.choice(multi)
         e = self.entries[key]
         di = rng.randrange(len(e.docs))
         data = e.docs[di].data
-        depth = 1 if focus else rng.choice([1, 1, 1, 1, 2, 3])
+        depth = 1 if focus or pfocus else rng.choice([1, 1, 1, 1, 2, 3])
         apis = ['iter_errors', 'iter_errors', 'is_valid', 'to_json', 'to_json', 'to_json_strict', 'to_json_skip',
                 'res_depth', 'res_iter', 'res_ns', 'res_loc', 'valid_twice']
         if e.family.paths:
             apis += ['iter_decode_path', 'res_find']
         api = rng.choice(['iter_errors', 'is_valid']) if focus else rng.choice(apis)
+        if pfocus:
+            api = rng.choice(['iter_decode_path', 'res_find'])
         if e.docs[di].kind == 'fault:double' and api.startswith('to_json'):
             # two faults x lazy decoding multiplies the listed lazy-decode findings into many surface forms
             # without adding information: double-fault documents go through validation only
@@ -263,7 +270,7 @@ class C06(Check):
         if api == 'res_depth':
             op['mode'] = rng.randrange(1, 6)
         if api in ('iter_decode_path', 'res_find'):
-            op['path'] = rng.choice(e.family.paths)
+            op['path'] = rng.choice([p_ for p_ in e.family.paths if '/' in p_ or '[' in p_] if pfocus else e.family.paths)
         ch = rng.choice(CHANNELS)
         plan, pclass = simio.gen_plan(rng, data)
         src = {'ch': ch, 'plan': plan, 'pclass': pclass}
